@@ -14,7 +14,10 @@ Definition scalar_args : list string :=
   ["v:int"; "p:int"; "n:int"; "pp:int"; "n:int8"; "n:uint"; "n:uint64"; "v:string"; "p:string"; "n:string"; "v:bytes"; "p:bytes";
    "n:bytes"; "v:nilbytes"; "v:float64"; "p:float64"; "n:float64"; "n:float32"; "v:bool"; "p:bool"; "n:bool"].
 Definition common_args : list string := ["nil"; "foreign"; "pforeign"; "nforeign"].
-Definition strings_args : list string := ["v:ss"; "p:ss"; "n:ss"; "v:ssnil"; "p:ssnil"; "v:bb"; "p:bb"; "n:bb"; "p:bbnil"].
+(* ...cap: two items in a storage of five (indices 2..4 lie between length and capacity); ...emp: emptied, storage kept *)
+Definition strings_args : list string :=
+  ["v:ss"; "p:ss"; "n:ss"; "v:ssnil"; "p:ssnil"; "v:bb"; "p:bb"; "n:bb"; "p:bbnil";
+   "v:sscap"; "p:sscap"; "v:bbcap"; "p:bbcap"; "p:ssemp"; "v:bbemp"].
 Definition map_args : list string := ["v:m"; "p:m"; "pp:m"; "n:m"; "npp:m"; "nilpp:m"; "v:mnil"; "p:mnil"].
 Definition reflect_args : list string :=
   ["r:embnil"; "r:pembnil"; "r:cyc"; "r:array"; "r:chan"; "r:func"; "r:hidden"; "r:mapany"; "r:anyslice"; "r:nested"].
